@@ -583,6 +583,103 @@ func (w *world) genCacheHistory(hi int) *history {
 	return h
 }
 
+// directed family for the equal-cumulative-QN tie-break: a common prefix, a local branch of 2-4 blocks
+// above the ancestor A (per-block QN split at random, height gaps), then several competitors that are
+// children of A with the SAME cumulative QN as the local head, at heights that coincide with a local
+// block's height, fill a gap, sit right above A or above the local head. Prove values of (first local
+// block above A, first competitor, local block at the competitor's height) are a random arrangement of
+// three levels - all six orderings occur - or tie, which leaves the decision to the hash.
+func (w *world) genTieHistory(r *hx.Rng, hi int) *history {
+	h := &history{byHash: map[common.Hash]int{}, txIdx: map[common.Hash]int{}, noFork: r.Intn(2) == 0}
+	h.blocks = append(h.blocks, &blk{hdr: w.genesis, parent: -1})
+	for i := 0; i < 8; i++ {
+		t := mkTx(hi, i)
+		h.txu = append(h.txu, t)
+		h.txIdx[t.Hash] = i
+	}
+	add := func(p int, height, qn uint64, pv int64) int {
+		b := w.build(h.blocks[p].hdr, height, qn, pv, byte(r.Intn(250)), nil)
+		if _, dup := h.byHash[b.Header.Hash]; dup {
+			return -1
+		}
+		raw, _ := types.MarshalBlock(b)
+		h.byHash[b.Header.Hash] = len(h.blocks)
+		h.blocks = append(h.blocks, &blk{hdr: b.Header, raw: raw, parent: p})
+		if height > h.maxH {
+			h.maxH = height
+		}
+		h.deliver = append(h.deliver, len(h.blocks)-1)
+		return len(h.blocks) - 1
+	}
+	a := 0
+	for i := r.Intn(3); i > 0; i-- {
+		a = add(a, h.blocks[a].hdr.Height+1+uint64(r.Intn(2)), uint64(r.Intn(3)), int64(10*(1+r.Intn(3))))
+	}
+	ah := h.blocks[a].hdr.Height
+	k := 2 + r.Intn(3)
+	q := uint64(2 + r.Intn(4))
+	split := make([]uint64, k)
+	for i := uint64(0); i < q; i++ {
+		split[r.Intn(k)]++
+	}
+	lv := []int64{10, 20, 30}
+	perm := [][3]int{{0, 1, 2}, {0, 2, 1}, {1, 0, 2}, {1, 2, 0}, {2, 0, 1}, {2, 1, 0}}[r.Intn(6)]
+	pL1, pC, pLat := lv[perm[0]], lv[perm[1]], lv[perm[2]]
+	switch r.Intn(6) {
+	case 0:
+		pC = pL1 // the hash decides at the fork point
+	case 1:
+		pC = pLat
+	}
+	jc := 1 + r.Intn(k-1) // index (0-based) of the local block whose height the first competitor takes
+	var lh []uint64
+	p, hgt := a, ah
+	for j := 0; j < k; j++ {
+		step := uint64(1 + r.Intn(3))
+		if j == 0 && r.Intn(10) < 7 {
+			step = 1
+		}
+		hgt += step
+		pv := lv[r.Intn(3)]
+		if j == 0 {
+			pv = pL1
+		} else if j == jc {
+			pv = pLat
+		}
+		p = add(p, hgt, split[j], pv)
+		lh = append(lh, hgt)
+	}
+	m := 2 + r.Intn(3)
+	for c := 0; c < m; c++ {
+		var ch uint64
+		switch x := r.Intn(10); {
+		case c == 0 || x < 5:
+			j := jc
+			if c > 0 {
+				j = 1 + r.Intn(k-1)
+			}
+			ch = lh[j]
+		case x < 7:
+			ch = ah + 1
+		default:
+			ch = ah + 1 + uint64(r.Intn(int(hgt-ah)+2))
+		}
+		pv := pC
+		if c > 0 {
+			pv = int64(5 * (1 + r.Intn(7)))
+		}
+		ci := add(a, ch, q, pv)
+		if ci >= 0 && r.Intn(3) == 0 { // the competitor's branch goes on
+			add(ci, ch+1+uint64(r.Intn(2)), uint64(r.Intn(2)), lv[r.Intn(3)])
+		}
+	}
+	if r.Intn(3) == 0 {
+		h.deliver = append(h.deliver, h.deliver[r.Intn(len(h.deliver))])
+	}
+	h.number(w)
+	return h
+}
+
 // scripted history for the fork switch: local chain g-x (QN 5); the peer's chain g-f1-f2-f3 (QN 1,2,6);
 // c (child of f1, QN 4) arrived by broadcast before and waits as an orphan. The switch removes x, adds
 // f1, whose callback pulls c in; f2 is lighter than c and refused; the switch stops with head c (QN 4).
@@ -1528,7 +1625,12 @@ func main() {
 	}
 	for hi := 0; hi < nh; hi++ {
 		// tree building commits states; put the state store back to genesis afterwards (setStores in runHistory)
-		h := w.genHistory(rng, a.Tier, hi)
+		var h *history
+		if hi%4 == 3 {
+			h = w.genTieHistory(rng, hi)
+		} else {
+			h = w.genHistory(rng, a.Tier, hi)
+		}
 		c := &ctx{w: w, h: h, res: res}
 		term, js := c.runHistory(rng, a.Tier, hi)
 		cs.Add(term, js)
